@@ -36,8 +36,11 @@ if mods:
         'LbzVerif.Props.C05.Block.retrieve_rejects_malformed',
         'LbzVerif.Props.C05.BlockDecode.block_decode_sound',
         'LbzVerif.Props.C05.ibwt_sound_all',
+        'LbzVerif.Props.C05.File.expand_sound',
+        'LbzVerif.Props.C05.File.expand_rejects_malformed',
     ])
-inproc.run_libs(ck, ['w12_emit', 'w11_prefix', 'w10_mtf', 'w15_retrieve'])
+inproc.run_libs(ck, ['w12_emit', 'w11_prefix', 'w10_mtf', 'w15_retrieve',
+                     'w22_expand'])
 exe = ck.build_lbzip2(asan=False)
 evals = nontriv = 0
 samples = []
